@@ -7587,6 +7587,55 @@ where
     }
 }
 
+// ---- verif hook H3 (cfg delaunay_verif): re-exports of private pure helpers; not compiled otherwise ----
+#[cfg(delaunay_verif)]
+#[allow(missing_docs, clippy::missing_panics_doc, clippy::must_use_candidate)]
+pub mod verif_api {
+    use super::{
+        DataType, HashGridIndex, InsertionOrderStrategy, Vertex, dedup_vertices_epsilon_hash_grid,
+        dedup_vertices_epsilon_n2, dedup_vertices_epsilon_quantized, dedup_vertices_exact_hash_grid,
+        dedup_vertices_exact_sorted, hilbert_bits_per_coord, morton_bits_per_coord, morton_code,
+        order_vertices_by_strategy,
+    };
+    use crate::geometry::traits::coordinate::CoordinateScalar;
+
+    pub fn order_vertices<T: CoordinateScalar, U: DataType, const D: usize>(
+        vertices: Vec<Vertex<T, U, D>>,
+        strategy: InsertionOrderStrategy,
+    ) -> Vec<Vertex<T, U, D>> {
+        order_vertices_by_strategy(vertices, strategy)
+    }
+
+    /// variant: 0 exact_sorted, 1 exact_hash_grid, 2 epsilon_n2, 3 epsilon_quantized, 4 epsilon_hash_grid
+    pub fn dedup_variant<T: CoordinateScalar, U: DataType, const D: usize>(
+        vertices: Vec<Vertex<T, U, D>>,
+        variant: u8,
+        epsilon: T,
+        grid_cell_size: T,
+    ) -> Vec<Vertex<T, U, D>> {
+        let mut grid: HashGridIndex<T, D, usize> = HashGridIndex::new(grid_cell_size);
+        match variant {
+            0 => dedup_vertices_exact_sorted(vertices),
+            1 => dedup_vertices_exact_hash_grid(vertices, &mut grid),
+            2 => dedup_vertices_epsilon_n2(vertices, epsilon),
+            3 => dedup_vertices_epsilon_quantized(vertices, epsilon),
+            _ => dedup_vertices_epsilon_hash_grid(vertices, epsilon, &mut grid),
+        }
+    }
+
+    pub fn morton<const D: usize>(quantized: [u64; D], bits_per_coord: u32) -> u64 {
+        morton_code::<D>(quantized, bits_per_coord)
+    }
+
+    pub fn morton_bits<const D: usize>() -> Option<u32> {
+        morton_bits_per_coord::<D>()
+    }
+
+    pub fn hilbert_bits<const D: usize>() -> Option<u32> {
+        hilbert_bits_per_coord::<D>()
+    }
+}
+
 // ---- verif hook H2 (cfg delaunay_verif): raw access for fault injection; not compiled otherwise ----
 #[cfg(delaunay_verif)]
 impl<K, U, V, const D: usize> DelaunayTriangulation<K, U, V, D>
